@@ -263,35 +263,69 @@ func (b *isoBatch) add(op string, args ...string) {
 	}
 }
 
+// runAll runs the lines in one child, falling back to one child per line when the batch fails.
+func (b *isoBatch) runAll(lines []string) []string {
+	res, ok := runChildBatch(lines, 40*time.Second)
+	if ok {
+		return res
+	}
+	out := make([]string, len(lines))
+	for i, l := range lines {
+		if b.dead >= 8 {
+			out[i] = ""
+			continue
+		}
+		out[i] = runChild(l, 4*time.Second)
+		if out[i] == "crash" || out[i] == "hang" {
+			b.dead++
+		}
+	}
+	return out
+}
+
+func (b *isoBatch) write(args []string, res string) {
+	if res == "" {
+		res = "-"
+	}
+	b.g.out.WriteString("C06 iso " + strings.Join(args, " ") + " => " + res + "\n")
+	b.g.N++
+}
+
+// flush: phase 1 classifies the single deposits of every pending case (classify <op> <items>), phase 2 runs the loops with
+// the classes as a pass-through argument (<op> <items> <classes>). Two separate child processes: the observation of the single
+// deposits cannot be influenced by the loop under test.
 func (b *isoBatch) flush() {
 	cases := b.pending
 	b.pending = nil
 	if len(cases) == 0 || b.dead >= 8 {
 		return
 	}
-	lines := make([]string, len(cases))
+	cl := make([]string, len(cases))
 	for i, c := range cases {
-		lines[i] = "C06 " + strings.Join(c, " ")
+		cl[i] = "C06 classify " + strings.Join(c, " ")
 	}
-	res, ok := runChildBatch(lines, 40*time.Second)
+	classes := b.runAll(cl)
+	run := []string{}
+	idx := []int{}
 	for i, c := range cases {
-		if b.dead >= 8 {
-			break
+		if classes[i] == "" {
+			continue
 		}
-		r := ""
-		if ok {
-			r = res[i]
-		} else {
-			r = runChild(lines[i], 4*time.Second)
-			if r == "crash" || r == "hang" {
-				b.dead++
+		b.write(append([]string{"classify"}, c...), classes[i])
+		if classes[i] == "crash" || classes[i] == "hang" {
+			continue
+		}
+		run = append(run, "C06 "+strings.Join(c, " ")+" "+classes[i])
+		idx = append(idx, i)
+	}
+	if len(run) > 0 && b.dead < 8 {
+		res := b.runAll(run)
+		for k, i := range idx {
+			if res[k] == "" {
+				continue
 			}
+			b.write(append(append([]string{}, cases[i]...), classes[i]), res[k])
 		}
-		if r == "" {
-			r = "-"
-		}
-		b.g.out.WriteString("C06 iso " + strings.Join(c, " ") + " => " + r + "\n")
-		b.g.N++
 	}
 	b.g.out.Flush()
 }
@@ -349,33 +383,42 @@ func init() {
 		its := items(a[0], ";")
 		classes := []string{}
 		for _, it := range its {
-			classes = append(classes, evmClass(evmLog(it, nil), nil))
+			it := it
+			classes = append(classes, clsOf(func() string { return evmClass(evmLog(it, nil), nil) }))
 		}
 		_, mk := evmHandlerFor(its)
-		return joinOr(classes, ",") + "|" + collect(func(ch chan []*message.Message) error {
-			return mk(ch).HandleEvents(big.NewInt(1), big.NewInt(2))
+		return c06Result(joinOr(classes, ","), func() string {
+			return collect(func(ch chan []*message.Message) error {
+				return mk(ch).HandleEvents(big.NewInt(1), big.NewInt(2))
+			})
 		})
 	}
 	ops["C06.hsub"] = func(a []string) string {
 		conn := &c06SubConn{}
 		classes := []string{}
 		for _, it := range items(a[0], ";") {
-			classes = append(classes, subClass(it))
+			it := it
+			classes = append(classes, clsOf(func() string { return subClass(it) }))
 			conn.evts = append(conn.evts, subEvent(it))
 		}
-		return joinOr(classes, ",") + "|" + collect(func(ch chan []*message.Message) error {
-			return subListener.NewFungibleTransferEventHandler(zerolog.Nop().With(), 1, subHandler(), ch, conn).HandleEvents(big.NewInt(1), big.NewInt(2))
+		return c06Result(joinOr(classes, ","), func() string {
+			return collect(func(ch chan []*message.Message) error {
+				return subListener.NewFungibleTransferEventHandler(zerolog.Nop().With(), 1, subHandler(), ch, conn).HandleEvents(big.NewInt(1), big.NewInt(2))
+			})
 		})
 	}
 	ops["C06.hbtc"] = func(a []string) string {
 		conn := &c06BtcConn{}
 		classes := []string{}
 		for i, it := range items(a[0], ";") {
+			i, it := i, it
 			conn.txs = append(conn.txs, btcTx(i, it))
-			classes = append(classes, btcClass(btcTx(i, it)))
+			classes = append(classes, clsOf(func() string { return btcClass(btcTx(i, it)) }))
 		}
-		return joinOr(classes, ",") + "|" + collect(func(ch chan []*message.Message) error {
-			return btcHandler(conn, ch).HandleEvents(big.NewInt(100))
+		return c06Result(joinOr(classes, ","), func() string {
+			return collect(func(ch chan []*message.Message) error {
+				return btcHandler(conn, ch).HandleEvents(big.NewInt(100))
+			})
 		})
 	}
 	ops["C06.retry2"] = func(a []string) string {
@@ -385,23 +428,26 @@ func init() {
 			lg := retry2Log(it)
 			cl.retries2 = append(cl.retries2, lg)
 			// the event on its own, through the real listener
-			var evs []events.RetryV2Event
-			cls := guarded(func() error {
-				var err error
-				evs, err = events.NewListener(&c06Client2{retries2: []ethTypes.Log{lg}}).FetchRetryV2Events(context.Background(), c06Bridge, big.NewInt(1), big.NewInt(2))
-				return err
-			})
-			switch {
-			case cls == "panic":
-				classes = append(classes, "ppanic")
-			case cls == "err" || len(evs) == 0:
-				classes = append(classes, "perr")
-			default:
-				classes = append(classes, fmt.Sprintf("ok.%d.%s", evs[0].SourceDomainID, evs[0].BlockHeight.String()))
-			}
+			classes = append(classes, clsOf(func() string {
+				var evs []events.RetryV2Event
+				cls := guarded(func() error {
+					var err error
+					evs, err = events.NewListener(&c06Client2{retries2: []ethTypes.Log{lg}}).FetchRetryV2Events(context.Background(), c06Bridge, big.NewInt(1), big.NewInt(2))
+					return err
+				})
+				switch {
+				case cls == "panic":
+					return "ppanic"
+				case cls == "err" || len(evs) == 0:
+					return "perr"
+				}
+				return fmt.Sprintf("ok.%d.%s", evs[0].SourceDomainID, evs[0].BlockHeight.String())
+			}))
 		}
-		return joinOr(classes, ",") + "|" + collect(func(ch chan []*message.Message) error {
-			return eventHandlers.NewRetryV2EventHandler(zerolog.Nop().With(), events.NewListener(cl), c06Bridge, 1, ch).HandleEvents(big.NewInt(1), big.NewInt(2))
+		return c06Result(joinOr(classes, ","), func() string {
+			return collect(func(ch chan []*message.Message) error {
+				return eventHandlers.NewRetryV2EventHandler(zerolog.Nop().With(), events.NewListener(cl), c06Bridge, 1, ch).HandleEvents(big.NewInt(1), big.NewInt(2))
+			})
 		})
 	}
 	// routechild: runs in a child process (see route). Prints the batches the destination chains were asked to write.
@@ -451,9 +497,20 @@ func init() {
 	ops["C06.route"] = func(a []string) string {
 		classes := []string{}
 		for _, it := range items(a[0], ";") {
-			classes = append(classes, evmClass(evmLog(it, nil), nil))
+			it := it
+			classes = append(classes, clsOf(func() string { return evmClass(evmLog(it, nil), nil) }))
 		}
-		return joinOr(classes, ",") + "|" + runChild("C06 routechild "+a[0], 15*time.Second)
+		return c06Result(joinOr(classes, ","), func() string { return runChild("C06 routechild "+a[0], 15*time.Second) })
+	}
+	// classify <op> <items>: only the single-deposit observation of <op>, the loop under test is not run
+	ops["C06.classify"] = func(a []string) string {
+		f, ok := ops["C06."+a[0]]
+		if !ok || a[0] == "iso" || a[0] == "classify" || a[0] == "routechild" {
+			panic("bad inner op")
+		}
+		c06Phase = "classes"
+		defer func() { c06Phase = "" }()
+		return f([]string{a[1]})
 	}
 	// iso <op> <items>: the whole op (observation of the single deposits included) in a memory-bounded child process with a
 	// short deadline. Whatever a deposit does that no recover() can catch — a fatal out-of-memory, a stack overflow, an
@@ -462,6 +519,9 @@ func init() {
 		if _, ok := ops["C06."+a[0]]; !ok || a[0] == "iso" {
 			panic("bad inner op")
 		}
-		return runChild("C06 "+a[0]+" "+a[1], 4*time.Second)
+		return runChild("C06 "+strings.Join(a, " "), 4*time.Second)
+	}
+	for _, k := range []string{"hevm", "hsub", "hbtc", "retry2", "route"} {
+		ops["C06."+k] = c06Wrap(ops["C06."+k])
 	}
 }
